@@ -888,9 +888,49 @@ func drawSetterOp(t *rapid.T, p Prof) setterOp {
 	return o
 }
 
+// c11Bystander: "no other claim changes" and "the encoding depends only on
+// the final values" also across OBJECTS: another claims-set of the same
+// profile, built through the same setters, is re-used by its holder as the
+// target of a decode (CBOR or JSON) of a token carrying other values (a
+// no-measurements flag of 23, another lifecycle, ...). Nothing was called on
+// c, so nothing about c changes.
+func c11Bystander(t *rapid.T, p Prof, c psatoken.IClaims) string {
+	before := Observe(c)
+	mb := GenValid(t, p, true)
+	mt := GenValid(t, p, false)
+	if p == P1 && genBool.Draw(t, "by.nomeas") {
+		mb.Comps, mb.NoMeas = nil, u64p(1)
+		mt.Comps, mt.NoMeas = nil, u64p(rapid.SampledFrom([]uint64{23, 0, 2}).Draw(t, "by.flag"))
+	}
+	b, err := mb.BuildSetters()
+	if err != nil {
+		return "VERIF-INFRA: bystander: " + err.Error()
+	}
+	what := "CBOR"
+	if genBool.Draw(t, "by.json") {
+		what = "JSON"
+		lit, ok := mt.BuildLiteral()
+		if !ok {
+			return ""
+		}
+		js, err := psatoken.EncodeClaimsToJSON(lit)
+		if err != nil {
+			return ""
+		}
+		_ = b.(json.Unmarshaler).UnmarshalJSON(js)
+	} else {
+		_ = b.(interface{ UnmarshalCBOR([]byte) error }).UnmarshalCBOR(mt.WireBytes())
+	}
+	after := Observe(c)
+	if before.Getters != after.Getters || before.CBOR != after.CBOR || before.JSON != after.JSON {
+		return fmt.Sprintf("the claims-set changed although nothing was called on it: ANOTHER claims-set of the profile (built through the same setters) was re-used as the target of a %s decode\n  before: %s | %s\n  after:  %s | %s", what, before.Getters, before.CBOR, after.Getters, after.CBOR)
+	}
+	return ""
+}
+
 func TestC11_Sequences(t *testing.T) {
 	st := NewStats("C11", "TestC11_Sequences", "rapid: sequences of 1..40 setter calls (all nine setters of both profiles, SetSoftwareComponents with nil / empty / valid list / list with one invalid component, container Add/Replace), valid and invalid values interleaved, against a reference model of the final values; after every call: agreement setter<->rule, getters equal the model, failure leaves Observe() unchanged, Validate() once all mandatory claims are set; at the end: encodings equal those of a fresh object given only the final values. Non-trivial = contains a failed call followed by a successful one, or a list/flag switch; distinct = sequence hash")
-	st.Require = []string{"fail-then-success", "P1", "P2", "mode0", "mode1", "mode2", "mode3", "complete", "start=bare", "start=json-nulls"}
+	st.Require = []string{"fail-then-success", "P1", "P2", "mode0", "mode1", "mode2", "mode3", "complete", "start=bare", "start=json-nulls", "bystander-decodes"}
 	defer st.Flush(t)
 	rapid.Check(t, func(t *rapid.T) {
 		p := drawProf(t)
@@ -903,7 +943,14 @@ func TestC11_Sequences(t *testing.T) {
 		trace := ""
 		sawFail, failThenOK, switched := false, false, false
 		modes := map[string]bool{}
+		bystanders := 0
 		for i := 0; i < n; i++ {
+			if rapid.IntRange(0, 7).Draw(t, "bystander") == 0 {
+				if msg := c11Bystander(t, p, c); msg != "" {
+					t.Fatalf("C11 violated at step %d (after %s): %s", i, trace, msg)
+				}
+				bystanders++
+			}
 			o := drawSetterOp(t, p)
 			hadList, hadFlag := len(m.Comps) > 0, m.NoMeas != nil
 			msg, ok, applicable := c11Step(c, m, o)
@@ -938,6 +985,9 @@ func TestC11_Sequences(t *testing.T) {
 		}
 		if failThenOK {
 			cls = append(cls, "fail-then-success")
+		}
+		if bystanders > 0 {
+			cls = append(cls, "bystander-decodes")
 		}
 		if switched {
 			cls = append(cls, "list-flag-switch")
